@@ -148,9 +148,65 @@ def run(pid, tier, seed, njobs=None):
                    "non-trivial = more than 50 scheduled steps",
            "samples": [{"job": jobs[0]["threads"], "outcome": projected[0]["ev"][0]}] if projected else [],
            "outcomes": outcomes, "park_events": parks, "spin_events": spins, "rejected": len(v["rejected"])}
+    tl = treelock_leg(pid, tier, seed, verdict)
+    cov["treelock_step_conformance"] = tl
+    cov["states"] = cov.get("states", 0) + tl["tlc_states"]
+    cov["transitions"] = cov.get("transitions", 0) + tl["tlc_states"]
+    cov["traces_validated_against_impl"] = cov.get("traces_validated_against_impl", 0) + tl["accepted"]
     lib.add_spec_coverage(cov, pid, tier)
     rc = verdict.finish()
     lib.write_evidence(pid, tier, seed, "model_checking", cov, time.time() - t0, len(verdict.violations),
                        ["fairness as the property assumes it", "std::thread::park/unpark token semantics", "parking_lot mutex",
                         "hooks at every blocking site (bin mutex, park, spin loops)"])
     return rc
+
+
+def treelock_leg(pid, tier, seed, verdict, n=None):
+    """Step-level conformance of the tree bins' read-write lock with TreeBinLock.tla (Trace_TreeLock): readers
+    and writers on a tree bin under the scheduler, every access to the lock word / waiter slot and every
+    park / unpark recorded and replayed."""
+    rng = random.Random(seed * 31 + 7)
+    n = n or (120 if tier == "quick" else 1500)
+    jobs = []
+    for i in range(n):
+        j = tree_contention_job(rng, "tl%s-%05d" % (pid.lower(), i))
+        j["rec"] = ["step"]
+        jobs.append(j)
+    res = lib.run_jobs(jobs, "tl" + pid.lower(), procs=8, timeout=1800)
+    proj, byid = [], {}
+    for job, trace, crash in res:
+        if crash is not None:
+            verdict.violation("crash:treelock:%s" % (crash.get("signal") or crash["rc"]), job["id"], {"job": job, "crash": crash},
+                              "the crate crashed/hung while running job %s (%s)" % (job["id"], str(crash)[:300]))
+            continue
+        p = project.treelock_projection(trace, job)
+        if p["ev"]:
+            proj.append(p)
+            byid[p["id"]] = (job, trace, p)
+    v = lib.validate_traces("Trace_TreeLock", proj, "tl" + pid.lower(), workers=6, timeout=1200, chunk=600)
+    for rid in v["rejected"]:
+        job, trace, p = byid[rid]
+        d = lib.diagnose_trace("Trace_TreeLock", p, "tl" + pid.lower())
+        fu = d["first_unmatched"] or {"e": "end"}
+        job2 = dict(job)
+        job2["sched"] = {"kind": "list", "steps": trace["schedule"]}
+        verdict.violation("treelock:%s" % fu.get("e"), rid, {"job": job2, "event": fu, "before": p["ev"][max(0, d["matched_events"] - 10):d["matched_events"]],
+                                                              "diagnosis": {k: d[k] for k in ("matched_events", "total_events")}},
+                          "job %s: lock-word event %d of %d is not a step of TreeBinLock.tla: %s" % (rid, d["matched_events"] + 1, d["total_events"], fu))
+    kinds = {}
+    for p in proj:
+        for e in p["ev"]:
+            kinds[e["e"]] = kinds.get(e["e"], 0) + 1
+    # binding self-test: a run in which the last reader's unpark is deleted must be rejected
+    selftest = "skipped"
+    cand = next((p for p in proj if p["id"] in v["accepted"] and any(e["e"] == "unpark" for e in p["ev"])), None)
+    if cand is not None:
+        bad = {k: v2 for k, v2 in cand.items()}
+        i = next(i for i, e in enumerate(cand["ev"]) if e["e"] == "unpark")
+        bad["ev"] = cand["ev"][:i] + cand["ev"][i + 1:]
+        bad["id"] = "selftest"
+        if "selftest" in lib.validate_traces("Trace_TreeLock", [bad], "tlst" + pid.lower(), workers=1)["accepted"]:
+            raise lib.ToolError("Trace_TreeLock accepted a run without the wake-up of the waiting writer: the monitor is vacuous")
+        selftest = "a run with the last reader's unpark deleted is rejected"
+    return {"runs": len(proj), "accepted": len(v["accepted"]), "rejected": len(v["rejected"]), "events_by_kind": kinds, "selftest": selftest,
+            "tlc_states": v["states"]}
